@@ -448,4 +448,12 @@ theorem takeRestAllU_cnt : ∀ (fs : BL) (ufs : UFields) (k : Nat), Lemmas.C03.B
     exact ⟨takeRest_cnt b _ _ hb.2.2.1, takeRestAllU_cnt r fr (k + 1) hb.2.2.2⟩
 end
 
+/-- the number of records is at most the sum of their sizes (`vsize`: one unit per serde call at least) -/
+theorem length_le_vsize_sum (ext : Ext) : ∀ (xs : List SVal), xs.length ≤ (xs.map (vsize ext)).sum
+  | [] => by simp
+  | x :: r => by
+    have := length_le_vsize_sum ext r
+    have := vsize_pos ext x
+    simp only [List.length_cons, List.map_cons, List.sum_cons]; omega
+
 end SaModel.Build
